@@ -128,13 +128,14 @@ Dbl == TN(<<"double">>, <<>>)
 P3  == TN(<<"gtsam", "Pose3">>, <<>>)
 BC  == TN(<<"ns", "B">>, <<TN(<<"C">>, <<>>)>>)
 N3  == TN(<<"3">>, <<>>)
+BCD == TN(<<"ns", "B">>, <<TN(<<"C">>, <<TN(<<"ns2", "D">>, <<>>)>>)>>)      \* an argument nested two levels deep
 Sz  == TN(<<"size_t">>, <<>>)
 TT  == Ty(<<"T">>, <<>>, FALSE, "", FALSE)
 UT  == Ty(<<"U">>, <<>>, TRUE, "&", FALSE)
 InstTmpls == { <<TP("T", <<>>)>>, <<TP("T", <<Dbl>>)>>, <<TP("T", <<Dbl, P3, BC>>)>>,
                <<TP("T", <<Dbl, P3>>), TP("U", <<Sz, BC, N3>>)>>, <<TP("T", <<Dbl>>), TP("U", <<>>)>>,
                <<TP("T", <<P3, Dbl>>), TP("U", <<Sz>>), TP("V", <<BC, N3>>)>>,
-               <<TP("T", <<Dbl, P3, BC, N3, Sz>>)>> }
+               <<TP("T", <<Dbl, P3, BC, N3, Sz>>)>>, <<TP("T", <<BCD, BC>>)>> }
 FooMembers(tm) ==
   << Ctor("Foo", <<>>, <<Arg(TT, "x", FALSE, "")>>),
      Method("get", <<>>, Ret1(TT), <<Arg(IF Len(tm) > 1 THEN UT ELSE TT, "y", FALSE, "")>>, TRUE),
